@@ -18,7 +18,7 @@ MANIFEST = {
                  "mean, error-weighted mean, propagated error, sample covariance), induction over all selector histories, "
                  "Cauchy-Schwarz and the collinear case (correlation exactly +-1, request accepted by the correlation-store model) "
                  "+ vm_compute correspondence of the model with the implementation + independent Fraction reference search",
-    "level_text": "Machine-checked theorems (C10_stats, C10_weighted, C10_selectors, C10_cov, C10_cauchy_schwarz, C10_collinear; "
+    "level_text": "Machine-checked theorems (C10_stats, C10_weighted, C10_selectors, C10_propagation, C10_monte_carlo, C10_cov, C10_cauchy_schwarz, C10_collinear; "
                   "exact rational arithmetic, uncertainties carried as their squares because Q has no square roots; C10_stats_R "
                   "restates the standard deviation and the error on the mean with real square roots) about Model/Stats.v, a Gallina "
                   "transcription of RepeatedlyMeasuredValue (constructor, use_* selectors), ExperimentalValueArray.mean / std / "
@@ -26,7 +26,8 @@ MANIFEST = {
                   "of Model/Corr.v (clamped covariance). All reading arrays, all uncertainty arrays and all selector histories are "
                   "covered by induction over lists. The model is run against the implementation on every check: dyadic reading "
                   "arrays of length 2-12 (large offsets, fine and wide spreads, lists and ndarrays), no / common / individual / "
-                  "partly zero uncertainties, random selector histories with a propagation k*a+c after every selector, and pairs of "
+                  "partly zero uncertainties, random selector histories with a derivative-method propagation k*a+c and Monte Carlo "
+                  "propagations of k*a+c and a*a (injected offsets, samples compared one by one) in every selector state, and pairs of "
                   "arrays (exactly collinear, nearly collinear, independent, unequal length, zero spread) through set_covariance / "
                   "set_correlation.",
     "level_note": "Trusted: Coq kernel; the hand transcription Model/Stats.v (tied by the correspondence); numpy's mean / std / sum / "
@@ -43,6 +44,8 @@ TRUSTED = [
     "Model/Stats.v: hand-written transcription of the statistics of RepeatedlyMeasuredValue / ExperimentalValueArray / "
     "calculate_covariance (tied by correspondence); its textbook layer t_* is the specification",
     "numpy mean / std / sum / sqrt (validated against the exact model on every run, not verified)",
+    "np.random.normal is replaced by fixed dyadic offsets for the sample-by-sample Monte Carlo comparison; the oracle also runs "
+    "real simulations (40000 samples, seeded from the case) against the 6-sigma bounds of the estimators",
 ]
 ASSUMPTIONS = [
     "readings and uncertainties are finite doubles, taken as the exact rationals they denote; at least two readings",
@@ -81,12 +84,14 @@ def read(a):
 
 
 def run_rmv(case):
-    """-> (obs0, [(sel, warned, obs, (dvalue, derror))])"""
+    """-> (obs0, mc samples of the fresh object, [(sel, warned, obs, (dvalue, derror), mc samples)])"""
     import qexpy as q
     q.set_error_method("derivative")
     a = sl.build(["repeated", case["xs"], case["errs"], case.get("container", "list")])
     k, c = fx(case["k"]), fx(case["c"])
+    offs = case_offsets(case)
     obs0 = read(a)
+    mc0 = sl.mc_injected(a, k, c, offs)
     hist = []
     for s in case["sels"]:
         with warnings.catch_warnings(record=True) as w:
@@ -94,8 +99,12 @@ def run_rmv(case):
             getattr(a, SEL_METHOD[s])()
             warned = any("not valid" in str(x.message) or "cannot be calculated" in str(x.message) for x in w)
         d = k * a + c
-        hist.append((s, warned, read(a), (num(d.value), num(d.error))))
-    return obs0, hist
+        hist.append((s, warned, read(a), (num(d.value), num(d.error)), sl.mc_injected(a, k, c, offs)))
+    return obs0, mc0, hist
+
+
+def case_offsets(case):
+    return [fx(h) for h in case["offsets"]] if case.get("offsets") else list(sl.DEFAULT_OFFSETS)
 
 
 def run_pair(case):
@@ -141,7 +150,8 @@ def gen_rmv(rng):
     xs = sl.gen_readings(rng)
     sels = [rng.choice(["std", "eom", "ewm", "perr"]) for _ in range(rng.choice([0, 1, 2, 3, 4, 6, 9]))]
     return {"xs": [hx(x) for x in xs], "errs": gen_errs(rng, len(xs)), "container": rng.choice(["list", "ndarray"]),
-            "k": hx(sl.dyadic(rng, 4, 2, nonzero=True)), "c": hx(sl.dyadic(rng, 5, 1)), "sels": sels}
+            "k": hx(sl.dyadic(rng, 4, 2, nonzero=True)), "c": hx(sl.dyadic(rng, 5, 1)), "sels": sels,
+            "offsets": [hx(o) for o in sl.gen_offsets(rng)], "mc_seed": rng.randrange(2 ** 32)}
 
 
 def gen_pair(rng):
@@ -229,12 +239,20 @@ def coq_obs(intern, o):
         coq_option(o["wmean"], q_), coq_option(o["perr"], q_)))
 
 
-def coq_rmv(intern, case, obs0, hist):
-    return "({}, {}, {}, ({}, {}), {})".format(
+def coq_mc(mc):
+    return "({}, {})".format(coq_list([qlit(x) for x in mc[0]]), coq_list([qlit(x) for x in mc[1]]))
+
+
+def coq_rmv(intern, case, obs0, mc0, hist):
+    return "({}, {}, {}, ({}, {}), {}, {}, {})".format(
         intern(coq_list([q_(h) for h in case["xs"]])), intern(coq_list(model_ss(case))), coq_obs(intern, obs0),
-        q_(case["k"]), q_(case["c"]),
-        coq_list(["({}, {}, {}, ({}, {}))".format(SEL_COQ[s], coq_bool(w), coq_obs(intern, o), q_(dv), q_(de))
-                  for s, w, o, (dv, de) in hist]))
+        q_(case["k"]), q_(case["c"]), coq_list([qlit(o) for o in case_offsets(case)]), coq_mc(mc0),
+        coq_list(["({}, {}, {}, ({}, {}), {})".format(SEL_COQ[s], coq_bool(w), coq_obs(intern, o), q_(dv), q_(de), coq_mc(mc))
+                  for s, w, o, (dv, de), mc in hist]))
+
+
+def mc_ok(mc):
+    return all(sl.finite(x) for x in mc[0] + mc[1])
 
 
 def coq_pair(case, out):
@@ -256,8 +274,8 @@ def correspondence(ctx):
     shards, index = [], []
     runs = []
     for case in rmvs:
-        obs0, hist = run_rmv(case)
-        runs.append((case, obs0, hist))
+        obs0, mc0, hist = run_rmv(case)
+        runs.append((case, obs0, mc0, hist))
         res.evaluations += 1
         res.traces += 1
         e = case["errs"]
@@ -265,21 +283,23 @@ def correspondence(ctx):
                                        ("individual-with-zero" if any(fx(h) == 0 for h in e) else "individual"))
         res.count("rmv:n={}".format(len(case["xs"])))
         res.count("rmv:uncertainties:" + ek)
-        for s, w, _, _ in hist:
+        for s, w, _, _, _ in hist:
             res.count("selector:{}:{}".format(s, "warned" if w else "applied"))
+        res.count("monte-carlo propagations with injected offsets", 2 * (1 + len(hist)))
         if hist and ek != "none":
             res.nontrivial.add(core.canonical_key("rmv", case))
     per = 60
     for k in range(0, len(runs), per):
         intern = Interner("o")
         bodies, idx = [], []
-        for j, (case, obs0, hist) in enumerate(runs[k:k + per]):
-            if not obs_ok(obs0) or not all(obs_ok(o) and dv not in (None, "inf") and de not in (None, "inf")
-                                           for _, _, o, (dv, de) in hist):
+        for j, (case, obs0, mc0, hist) in enumerate(runs[k:k + per]):
+            if not obs_ok(obs0) or not mc_ok(mc0) or not all(
+                    obs_ok(o) and dv not in (None, "inf") and de not in (None, "inf") and mc_ok(mc)
+                    for _, _, o, (dv, de), mc in hist):
                 res.disagreements.append({"name": "implementation reported a non-finite or non-float statistic",
                                           "kind": "rmv", "case": case})
                 continue
-            bodies.append(coq_rmv(intern, case, obs0, hist))
+            bodies.append(coq_rmv(intern, case, obs0, mc0, hist))
             idx.append(("rmv", case))
         if bodies:
             shards.append(HEADER + intern.text() + "Definition cases := {}.\nEval vm_compute in (bad_indices check_rmv cases).\n".format(
@@ -326,7 +346,9 @@ def correspondence(ctx):
     res.rule = ("(a) q.Measurement(readings[, uncertainties]) for dyadic reading arrays of length 2-12 (small / large offset / fine / "
                 "wide / exact-std, list or ndarray; no, common, individual, partly zero or very unequal uncertainties): raw_data, "
                 "mean, std, error_on_mean, error_weighted_mean, propagated_error, value, error of the fresh object and after each "
-                "call of a random use_* history (0-9 calls), the warning flag, and value / error of k*a+c computed afterwards, "
+                "call of a random use_* history (0-9 calls), the warning flag, value / error of k*a+c computed afterwards by the "
+                "derivative method, and in every state the Monte Carlo samples of k*a+c and a*a retrieved with injected dyadic "
+                "offsets (np.random.normal replaced), "
                 "against Model.Stats (squares of uncertainties, 1e-9); (b) set_covariance / set_correlation without a number between "
                 "two plain arrays (collinear, nearly collinear, independent, unequal length, zero spread), function and method "
                 "form: outcome, covariance, correlation (through its square and sign); (c) malformed stream: construction with "
@@ -358,6 +380,48 @@ def errs_list(case):
     if isinstance(e, list):
         return [fr(h) for h in e]
     return [fr(e)] * n
+
+
+MC_N = 40000
+
+
+def mc_oracle(a, k, c, offs, want_value, want_error, where, seed=None):
+    """Monte Carlo propagation through a must use the selected value / uncertainty (hex strings).
+    Deterministic part: with injected offsets o every retrieved sample of k*a+c is k*(o*error+value)+c and of a*a
+    is (o*error+value)^2.  Statistical part (seed given): a real simulation of MC_N samples of k*a+c has mean
+    within 6 sigma/sqrt(N) of k*value+c and standard deviation within 6 sigma/sqrt(2N) of |k|*error."""
+    v, e = fr(want_value), fr(want_error)
+    lin, sq = sl.mc_injected(a, k, c, offs)
+    if len(lin) != len(offs) or len(sq) != min(2, len(offs)):
+        return "{}: Monte Carlo returned {} / {} samples for {} / 2 injected offsets".format(where, len(lin), len(sq), len(offs))
+    for o, smp in zip(offs, lin):
+        want = Fraction(k) * (Fraction(o) * e + v) + Fraction(c)
+        scale = abs(Fraction(k) * Fraction(o) * e) + abs(Fraction(k) * v) + abs(Fraction(c))
+        if not sl.finite(smp) or abs(fr(smp) - want) > Fraction(1, 10 ** 12) * scale:
+            return ("{}: Monte Carlo sample of {}*a+{} for the offset {} is {}, but value + offset * uncertainty in use "
+                    "({} + {} * {}) gives {}".format(where, k, c, o, smp, fx(want_value), o, fx(want_error), float(want)))
+    for o, smp in zip(offs, sq):
+        want = (Fraction(o) * e + v) ** 2
+        scale = (abs(Fraction(o) * e) + abs(v)) ** 2
+        if not sl.finite(smp) or abs(fr(smp) - want) > Fraction(1, 10 ** 12) * scale:
+            return ("{}: Monte Carlo sample of a*a for the offset {} is {}, but value + offset * uncertainty in use "
+                    "({} + {} * {}) gives {}".format(where, o, smp, fx(want_value), o, fx(want_error), float(want)))
+    if seed is not None and fx(want_error) > 0:
+        import numpy as np
+        state = np.random.get_state()
+        np.random.seed(seed)
+        try:
+            mv, me, _ = sl.mc_propagate(k * a + c, MC_N)
+        finally:
+            np.random.set_state(state)
+        sigma = abs(k) * fx(want_error)
+        if abs(me - sigma) > 6 * sigma / math.sqrt(2 * MC_N):
+            return "{}: Monte Carlo error of {}*a+{} over {} samples is {}, the uncertainty in use gives {}".format(
+                where, k, c, MC_N, me, sigma)
+        if abs(mv - (k * fx(want_value) + c)) > 6 * sigma / math.sqrt(MC_N):
+            return "{}: Monte Carlo value of {}*a+{} over {} samples is {}, the value in use gives {}".format(
+                where, k, c, MC_N, mv, k * fx(want_value) + c)
+    return None
 
 
 def check_rmv_oracle(case):
@@ -408,6 +472,11 @@ def check_rmv_oracle(case):
             fx(o["value"]), fx(o["error"]), fx(o["mean"]), fx(o["eom"]))
     want_value, want_error = o["mean"], o["eom"]
     b = q.Measurement(1.5, 0.25)
+    offs = case_offsets(case)
+    seed = case.get("mc_seed")
+    why = mc_oracle(a, k, c, offs, want_value, want_error, "fresh object", seed if not case["sels"] else None)
+    if why:
+        return why
     for i, s in enumerate(case["sels"]):
         where = "after selector {} ({})".format(i, SEL_METHOD[s])
         with warnings.catch_warnings():
@@ -437,6 +506,9 @@ def check_rmv_oracle(case):
         t = a + b
         if not sl.close(fr(float(t.error)) ** 2, fr(want_error) ** 2 + Fraction(1, 16), 1e-12):
             return "{}: (a+b).error = {}, expected sqrt({}^2 + 0.25^2)".format(where, float(t.error), fx(want_error))
+        why = mc_oracle(a, k, c, offs, want_value, want_error, where, seed if i == len(case["sels"]) - 1 else None)
+        if why:
+            return why
     return None
 
 
